@@ -213,6 +213,23 @@ def mutated_trees(seed, n):
     return out
 
 
+def stage2_options(rng):
+    """option sets whose plan has only stage-2 filters (no reindent / reindent_aligned / indent_columns)"""
+    o = {}
+    for k, vals in [('keyword_case', ['upper', 'lower', 'capitalize']), ('identifier_case', ['upper', 'lower', 'capitalize']),
+                    ('truncate_strings', [2, 3, '5', 10]), ('truncate_char', ['…', '', '[...]', 5]),
+                    ('use_space_around_operators', [True, 1, 1.0, False]), ('strip_comments', [True, 1, False]),
+                    ('strip_whitespace', [True, 1.0, False]), ('output_format', ['python', 'php', 'sql']),
+                    ('right_margin', [None, 12]), ('indent_tabs', [True, False]), ('indent_width', [3]),
+                    ('reindent', [False, 0]), ('compact', [True])]:
+        p = 0.04 if k == 'right_margin' else 0.35
+        if rng.random() < p:
+            o[k] = rng.choice(vals)
+    items = list(o.items())
+    rng.shuffle(items)
+    return dict(items)
+
+
 # ---------------------------------------------------------------------------------------------
 TREE_STREAMS = ['stripcomments', 'stripws', 'spaces', 'semicolon', 'outpython:1', 'outphp:2',
                 'spaces,stripcomments,stripws', 'stripcomments,stripws,outpython:3', 'stripws,stripws', 'spaces,spaces',
@@ -239,6 +256,15 @@ def main():
     if want('case'):
         streams.s_caseconv(ctx, case_strings(a.seed, max(2000, a.n // 3)))
         print('S-CASE done %.0fs' % (time.time() - t0), flush=True)
+    if 'casefull' in only:
+        # every code point in three contexts (alone, between cased letters before a sigma, after a sigma)
+        for lo in range(0, 0x110000, 0x8000):
+            strs = []
+            for c in range(lo, min(lo + 0x8000, 0x110000)):
+                ch = chr(c)
+                strs += [ch, 'Α' + ch + 'Σ' + ch, 'ΑΣ' + ch + 'α', ch + 'Σ']
+            streams.s_caseconv(ctx, strs)
+        print('S-CASE (all code points) done %.0fs' % (time.time() - t0), flush=True)
     if want('tok'):
         streams.s_tokfilter(ctx, token_cases(a.seed, a.n))
         print('S-TOKF done %.0fs' % (time.time() - t0), flush=True)
@@ -261,6 +287,15 @@ def main():
         for j in range(0, len(tx), 5000):
             streams.s_serialize(ctx, tx[j:j + 5000], raw[j:j + 5000] if j < len(raw) else ())
         print('S-SER done %.0fs' % (time.time() - t0), flush=True)
+
+    if want('fmt'):
+        rng = random.Random('vfmt-%d' % a.seed)
+        tx = texts(a.seed * 100 + 88, a.n)
+        inputs = [(t, stage2_options(rng)) for t in tx]
+        n = 0
+        for j in range(0, len(inputs), 5000):
+            n += streams.s_fmtstmt(ctx, inputs[j:j + 5000])
+        print('S-FMT2 done: %d statements, %.0fs' % (n, time.time() - t0), flush=True)
 
     print()
     bad = 0
